@@ -320,12 +320,15 @@ Section Prog.
     | FAlarmInv n => Go (FKidsEntry n :: FAlarmBody n :: k) s
     | FAlarmBody n => Yield RCont (FAlarmPost n :: k) s
     | FAlarmPost n =>
+        match n_kind (nd n) with KAlarm => 
         let s1 := mark_completed s n in
         let x := st s1 n in
         let s2 := set_ns s1 n (set_cond x (activated x) (interrupt_registered x) (Datatypes.S (run_count x))) in
         let s3 := unregister_interrupt s2 n in
         let s4 := reset_tree s3 n in
         Yield REnd (FRet :: k) (register_interrupt s4 n)
+        | _ => Go k s          (* this frame only exists for alarm nodes *)
+        end
     end.
 
   (* an exception unwinds to the nearest enclosing visit, which records the failure and returns normally *)
